@@ -80,6 +80,7 @@ CHECKERS = [
     ("mk_guard_contract", "mk_guard_contract generated"),
     ("chunk_contract", "chunk_contract generated"),
     ("valid_cells_complete", "valid_cells_complete generated"),
+    ("loader_steps_contract", "loader_steps_contract generated"),
     ("rm_train_all_paths", "rm_all_paths no_excuse RmTrain generated"),
     ("rm_val_all_paths", "rm_all_paths no_excuse RmVal generated"),
     ("rm_lit_train_all_paths", "rm_all_paths no_excuse RmLitTrain generated"),
@@ -308,6 +309,84 @@ def assign_ckpt_options(rng, specs):
         s.setdefault("opts", {}).update({"save_top_k": k, "save_last": l})
 
 
+def n_samples(spec) -> int:
+    """number of training (= validation) samples of the run's labels file: one frame; two instances for the
+    centered-instance pipeline (one sample per instance), one sample otherwise"""
+    return 2 if spec["model_type"] == "centered_instance" else 1
+
+
+def train_bs_of(spec):
+    return (spec.get("opts") or {}).get("train_bs", 1)
+
+
+def val_bs_of(spec):
+    return (spec.get("opts") or {}).get("val_bs", 1)
+
+
+def monitors_val_loss(spec) -> bool:
+    """something in the run reads the logged `val_loss`: the top-k ModelCheckpoint, early stopping, or the
+    reduce-lr-on-plateau scheduler"""
+    o = spec.get("opts") or {}
+    return bool((spec["save_ckpt"] and save_top_k_of(spec) != 0) or o.get("early_stopping") or o.get("reduce_lr"))
+
+
+LOADER_FWS = ("torch_dataset", "torch_dataset_np_chunks")     # both go through `_create_data_loaders_torch_dataset`
+
+
+def assign_loader_sizes(rng, specs):
+    """round 5: the loader-size parameters of a valid configuration.  Train / val batch size below or equal to
+    (`le`) and ABOVE (`gt`) the number of samples are dealt, in a seeded order, over the fault-free runs of the two
+    CyclerDataLoader frameworks (the steps per epoch of both loaders are DERIVED from them:
+    len(dataset) // batch_size, which is 0 in the `gt` class); a builder-made configuration has one batch size for
+    both loaders.  Every run set has, for EACH of the two frameworks, a run with val batch size > #val samples in
+    which something monitors val_loss, and a run with train batch size > #train samples whose steps_per_epoch is
+    left to be derived (None).  litdata runs keep batch size 1 (StreamingDataLoader, no derived step count)."""
+    combos = [("le", "le"), ("le", "gt"), ("gt", "le"), ("gt", "gt")]
+
+    def size(cls, n):
+        return rng.choice(list(range(1, n + 1))) if cls == "le" else rng.choice([n + 1, n + 2, 2 * n + 2])
+
+    for fw in LOADER_FWS:
+        runs = [s for s in specs if s["framework"] == fw and not fault_of(s)]
+        rng.shuffle(runs)
+        order = combos[:]
+        rng.shuffle(order)
+        # the two forced classes come first, so that a framework with few runs still has them
+        order.sort(key=lambda c: c not in (("le", "gt"), ("gt", "le")))
+        for i, s in enumerate(runs):
+            tcls, vcls = order[i % 4]
+            n = n_samples(s)
+            o = s.setdefault("opts", {})
+            if s["structured"]:
+                tcls = vcls = (tcls, vcls)[(i // 4) % 2]     # one batch size: alternately the train / val class dealt
+                o["train_bs"] = o["val_bs"] = size(tcls, n)
+            else:
+                o["train_bs"], o["val_bs"] = size(tcls, n), size(vcls, n)
+            if vcls == "gt" and not monitors_val_loss(s):
+                o[rng.choice(["early_stopping", "reduce_lr"])] = True
+            elif rng.random() < 0.25:
+                o["reduce_lr"] = True
+            if tcls == "gt" and (i < 4 or rng.random() < 0.5):
+                o["steps_per_epoch"] = None
+        if runs:
+            if not any(val_bs_of(s) > n_samples(s) and monitors_val_loss(s) for s in runs):
+                s = runs[0]
+                s["opts"]["val_bs"] = n_samples(s) + 1
+                if s["structured"]:
+                    s["opts"]["train_bs"] = s["opts"]["val_bs"]
+                if not monitors_val_loss(s):
+                    s["opts"]["reduce_lr"] = True
+            if not any(train_bs_of(s) > n_samples(s) and "steps_per_epoch" in s["opts"]
+                       and s["opts"]["steps_per_epoch"] is None for s in runs):
+                s = runs[-1]
+                s["opts"]["train_bs"] = n_samples(s) + 1
+                if s["structured"]:
+                    s["opts"]["val_bs"] = s["opts"]["train_bs"]
+                    if not monitors_val_loss(s):
+                        s["opts"]["reduce_lr"] = True
+                s["opts"]["steps_per_epoch"] = None
+
+
 # rejection sites of the trainer source: the data-dependent (opaque) conditions that may guard an explicit
 # `raise` (review finding 3).  A rejection guarded by anything else is a new way of refusing a configuration and
 # is reported; rejections guarded by named flags only are judged in Coq (`valid_cells_complete`).
@@ -449,11 +528,27 @@ def obligations_text(vals: dict) -> str:
         thm("gen_chunks_left_behind_refuted", "exists E, chunks_left_behind generated E",
             "exact (rm_missing_cell_exists generated ob_has_rm_missing_cell).")
     # --- completion
+    loaders = val("loader_steps_contract", ex["loader_steps_contract"])
     if val("completes", ex["completes"]):
-        thm("gen_run_completes",
-            "forall E, valid_cell (fl E) = true -> (forall i, fault E i = NoFault) ->\n"
-            "  result E generated = Ok \\/ result E generated = ExnInvalid",
-            "exact (run_completes_sound_lemma generated ob_completes).")
+        if loaders:
+            # round 5: the completion theorem with its presumption discharged — no loader built on the way is empty,
+            # for every dataset size, batch size and configured steps (None or >= 1)
+            thm("gen_run_completes",
+                "forall E, valid_cell (fl E) = true -> (forall i, fault E i = NoFault) ->\n"
+                "  (result E generated = Ok \\/ result E generated = ExnInvalid) /\\\n"
+                "  (forall k s, In (ALoader k s) (trace E generated) ->\n"
+                "   forall cfg n b, cfg_steps_valid cfg -> 1 <= n -> 1 <= b -> 1 <= loader_len (steps_val s cfg n b) n b)",
+                "exact (run_completes_with_loaders_lemma generated ob_completes ob_loader_steps_contract).")
+            thm("gen_loaders_built_before_fit",
+                "forall c, valid_cell (cell_flags c) = true -> result (cenv generated c None) generated = Ok ->\n"
+                "  exists st sv, In (ALoader LTrain st) (before_fit (trace (cenv generated c None) generated)) /\\\n"
+                "                In (ALoader LVal sv) (before_fit (trace (cenv generated c None) generated))",
+                "exact (loaders_built_lemma generated ob_loader_steps_contract).")
+        else:
+            thm("gen_run_completes_modulo_loaders",
+                "forall E, valid_cell (fl E) = true -> (forall i, fault E i = NoFault) ->\n"
+                "  result E generated = Ok \\/ result E generated = ExnInvalid",
+                "exact (run_completes_sound_lemma generated ob_completes).")
         # ... and not by rejecting: every valid cell of the grid ends Ok (under the data valuation tied to real runs)
         if val("valid_cells_complete", ex["valid_cells_complete"]):
             thm("gen_valid_cells_end_ok",
@@ -829,6 +924,18 @@ def oracle(res: dict) -> list[dict]:
                       "detail": f"save_ckpt={spec['save_ckpt']}, model_ckpt.save_top_k={save_top_k_of(spec)}, "
                                 f"model_ckpt.save_last={save_last_of(spec)} but checkpoint files = "
                                 f"{res.get('ckpt_files')}"})
+    # (o4') the checkpoint files are the ones the options ask for, on a run that completed: a top-k file (best*.ckpt)
+    #       unless save_top_k == 0 — it is written when the monitored val_loss was logged, i.e. validation RAN —
+    #       and last.ckpt when save_last
+    if want_ckpt and res.get("outcome") == "ok" and has:
+        names = [Path(f).name for f in res.get("ckpt_files") or []]
+        if save_top_k_of(spec) != 0 and not any(not n.startswith("last") for n in names):
+            fails.append({"clause": "ckpt_iff_requested", "selector": None,
+                          "detail": f"model_ckpt.save_top_k={save_top_k_of(spec)} but no top-k (best) checkpoint was "
+                                    f"written (val batch size {val_bs_of(spec)}, {n_samples(spec)} val samples): {names}"})
+        if save_last_of(spec) is True and not any(n.startswith("last") for n in names):
+            fails.append({"clause": "ckpt_iff_requested", "selector": None,
+                          "detail": f"model_ckpt.save_last=True but no last.ckpt: {names}"})
     # (o5) no chunk files when their deletion is requested
     #      — whatever framework produced them (np chunks, litdata chunks, np chunks of the memory fallback),
     #      created by this run or re-used; not demanded of a process that died outside train()'s try
@@ -926,6 +1033,9 @@ def choose_specs(run: core.Run, model_by_cell: dict | None):
             for f in FRAMEWORKS:
                 add(mk_spec(pick(MODEL_TYPES), f, coin(), True, coin(), wandb_mode=pick(WANDB_MODES),
                             fault=F(at, kind)))
+    # loader-size parameters (batch sizes below / equal to / above the number of samples; derived steps per epoch)
+    witness_ids = {spec_id(spec_from(json.loads(f.read_text())["spec"])) for f in sorted((core.CORPUS / "C19").glob("*.json"))}
+    assign_loader_sizes(rng, [s_ for s_ in specs if spec_id(s_) not in witness_ids])
     # search: every leak signature / failing outcome the MODEL predicts must be replayed on a real run
     if model_by_cell:
         sigs = {}
@@ -959,7 +1069,7 @@ def check(run: core.Run) -> int:
     run.build_and_prove(PROP_FILES)
     pre, vals, info = static_part(run)
     run.coverage["translator"] = {k: info.get(k) for k in ("paths", "undeclared", "assumptions", "notes", "sha",
-                                                           "unsupported", "raise_sites", "mk_sites", "ckpt_guard")
+                                                           "unsupported", "raise_sites", "mk_sites", "ckpt_guard", "loader_sites")
                                   if k in info}
     run.coverage["checkers_on_generated_term"] = vals
 
@@ -975,6 +1085,15 @@ def check(run: core.Run) -> int:
 
     # ---- real runs
     specs = choose_specs(run, model_by_cell)
+    run.coverage["loader_size_runs"] = {
+        fw: {"val_batch_gt_samples_and_val_loss_monitored":
+                 sum(1 for s_ in specs if s_["framework"] == fw and val_bs_of(s_) > n_samples(s_) and monitors_val_loss(s_)),
+             "train_batch_gt_samples_steps_derived":
+                 sum(1 for s_ in specs if s_["framework"] == fw and train_bs_of(s_) > n_samples(s_)
+                     and (s_.get("opts") or {}).get("steps_per_epoch", 1) is None),
+             "batch_le_samples": sum(1 for s_ in specs if s_["framework"] == fw and val_bs_of(s_) <= n_samples(s_)
+                                     and train_bs_of(s_) <= n_samples(s_))}
+        for fw in LOADER_FWS}
     if model_by_cell is not None:
         todo = {}
         for s_ in specs:
@@ -1080,6 +1199,11 @@ def check(run: core.Run) -> int:
             run.obligation(f"{nm} generated = true", bool(vals[nm]))
         # the tracking-run id: F15 (undeclared run_id on a structured config) makes the mutation raise, which
         # the completion checker reports; the id contract itself is judged when completion holds
+        run.obligation("loader_steps_contract generated = true: every data loader the trainer builds has an explicit length "
+                       "that is >= 1 for EVERY dataset size / batch size (a `len(dataset) // batch_size` reaches the "
+                       "loader only behind a `!= 0 else 1` / `max(1, .)` guard), and every valid cell builds a train and a "
+                       "validation loader before fit; loaders: " + json.dumps(info.get("loader_sites"))[:500],
+                       bool(vals["loader_steps_contract"]))
         if vals["completes"]:
             run.obligation("valid_cells_complete generated = true: every valid cell of the grid ends Ok, not by an "
                            "explicit rejection (`completes` alone accepts a rejection)", bool(vals["valid_cells_complete"]))
@@ -1093,7 +1217,8 @@ def check(run: core.Run) -> int:
     run.coverage.update({
         "grid": "model types x {torch_dataset, torch_dataset_np_chunks, litdata} x tracking x checkpointing x "
                 "{plain YAML-loaded, structured builder-made} x delete flag x wandb_mode {offline, None, online} x "
-                "chunk re-use (two-step) x memory fallback: pairwise-covering subset + nuisance options + "
+                "chunk re-use (two-step) x memory fallback: pairwise-covering subset + nuisance options + train / val batch "
+                "size {<=, >} number of samples (steps per epoch derived) x {step_lr, reduce_lr_on_plateau} + "
                 "corpus witnesses + wandb-mode / re-use / litdata / fallback / delete-off cells + faults at "
                 "fit_return, fit_start, ckpt_hook (RuntimeError / KeyboardInterrupt) and outside try (dataset, after_initial)",
         "write_boundaries_scanned": n_boundaries, "disagreements": disagreements,
@@ -1115,6 +1240,9 @@ def check(run: core.Run) -> int:
                            "save_last None / False is the documented request for zero checkpoints, and none is written")
     run.assumptions.append("Lightning's ModelCheckpoint writes a top-k file iff save_top_k != 0 and last.ckpt iff "
                            "save_last (translator contract, cross-checked by the real runs over all 12 option values)")
+    run.assumptions.append("a data loader of explicit length 0 handed to Trainer.fit makes the run fail (Lightning skips the "
+                           "loop, val_loss is never logged); cross-checked on every run set by real runs with a train / val "
+                           "batch size larger than the number of samples, in both CyclerDataLoader frameworks")
     run.assumptions.append("`shutil.rmtree(..., ignore_errors=True)`: a chunk removal that fails is silent in the code "
                            "and counts as done in the model (the oracle looks at the files left)")
     return run.finish()
